@@ -139,7 +139,7 @@ def real_load(src):
     return "ok " + " ".join(parts)
 
 
-def expected_load(src):
+def expected_load(src, version=None):
     """expected outcome of real_load, or None when the text is outside this oracle (EEMS 2.0 forms are converted first - C16; repeated argument names)"""
     from mpilot.parser.parser import Parser
     from mpilot.utils import EEMS_COMMANDS
@@ -152,7 +152,8 @@ def expected_load(src):
         return "syntax"
     except Exception:
         return None
-    if tree.version != 3 or any(c.command in EEMS_COMMANDS or c.result_name is None for c in tree.commands):
+    # (the syntax version is taken from the model's reading of the text when given: a parser that mistakes a file's version is what this oracle is for)
+    if (tree.version if version is None else version) != 3 or any(c.command in EEMS_COMMANDS or c.result_name is None for c in tree.commands):
         return None
     if any(len(set(a.name for a in c.arguments)) != len(c.arguments) for c in tree.commands):
         return None                 # an argument given twice: the program keeps one of them (which one is not part of this property)
